@@ -195,6 +195,11 @@ def gen_target(r, kind, depth=0):
     d = mk_dict(r, kind)
     for k in r.sample(KEYS, r.randint(0, 5)):
         d[k] = r.choice(SCALARS) if r.random() < 0.8 else [r.choice(SCALARS) for _ in range(r.randint(1, 3))]
+    if r.random() < 0.2:
+        # bookkeeping entries as loads(include_position / include_comments) leaves them: keys like any other for update
+        d["__position__"] = {"line": r.randint(1, 99), "column": r.randint(1, 40), "name": {"line": r.randint(1, 99), "column": 3}}
+        if r.random() < 0.5:
+            d["__comments__"] = {"name": ["# a comment"]}
     if depth < 3:
         for k in r.sample(CHILD, r.randint(0, 2)):
             d[k] = gen_target(r, kind, depth + 1)
@@ -208,7 +213,7 @@ def gen_patch(r, t, kind, depth=0, ood=0.0):
     p = {}
     for k, v in list(t.items()):
         x = r.random()
-        if x < 0.45:
+        if x < 0.45 and not (k == "__position__" and x < 0.15):
             continue
         pk = case_key(r, k, kind)
         if isinstance(v, dict):
@@ -245,6 +250,8 @@ def gen_patch(r, t, kind, depth=0, ood=0.0):
         k = r.choice(LISTS)
         if k not in t:
             p[case_key(r, k, kind)] = [gen_patch(r, {}, kind, depth + 1, ood) for _ in range(r.randint(1, 2))]
+    if "__position__" not in t and r.random() < 0.06:
+        p["__position__"] = r.choice([{"line": 7, "column": 2, "status": {"line": 8, "column": 3}}, 5, [1, 2], "text"])
     if ood and r.random() < ood:
         p[r.choice(["absent1", "absent2"])] = r.choice(["__delete__", {"__delete__": True}])
     return p
